@@ -95,6 +95,18 @@ def run_case(case):
                         obl.fail('%s raised %s: %s' % (what, type(e).__name__, str(e)[:100]))
                     record(obl, n0, 'C15/iterate/field=%s' % c01.classify(fs_expr, '0', '0', None, None, '').split('/')[1],
                            [fs_expr, str(lv), 'None'], 'list')
+                    # the same level-data object read from and iterated repeatedly: every pass yields every box once
+                    n0 = len(obl.failed)
+                    what = 'ld = pck[%s][%d]; ld[0]; list(ld); list(ld)' % (fs_expr, lv)
+                    try:
+                        ld = pck[fsel][lv]
+                        ld[0]
+                        list(ld)
+                        check_multiset(obl, ref, lv, fexp, list(ld), what)
+                    except Exception as e:
+                        obl.fail('%s raised %s: %s' % (what, type(e).__name__, str(e)[:100]))
+                    if len(obl.failed) > n0 and 'C15/iterate-again' not in viol:
+                        viol['C15/iterate-again'] = {'signature': 'C15/iterate-again', 'what': obl.failed[n0][0], 'call': [fs_expr, str(lv), 'None'], 'mode': 'list', 'retain': True}
                     # on-demand iterator
                     for bs_expr in c01.box_selectors(nb, 'quick')[:: (7 if tier == 'quick' else 2)] + ['slice(None,None,None)', repr(list(range(nb))[::-1])]:
                         bsel = eval(bs_expr, {'np': np})
